@@ -68,12 +68,16 @@ def run(ctx):
         m = no_recopy(c, a)
         if m:
             st0["oracle"].append({"input": c.id, "why": m, "triggers": trig.get(c.id, []), "case": c.to_text(), "impl": ""})
+        # crash points are counted in primitive calls: if the two raw traces differ in length
+        # (an optional Chtimes, see t2.norm_trace) the k-th call is not the same call on both
+        # sides, so the crash dumps of this history are judged by the oracle only
+        aligned = mod is None or all(a["T"].get(i, []) == mod[c.id]["T"].get(i, []) for i in set(a["T"]) | set(mod[c.id]["T"]))
         total = sum(len(a["T"][i]) for i in a["T"])
         ks = list(range(0, total + 1))
         if len(ks) > per:
             ks = sorted(rnd.sample(ks, per))
         for k in ks:
-            variants.append(t2.Case("%s@%d" % (c.id, k), c.cfg, c.inits, c.ops, crash=k, meta={"parent": c.id}))
+            variants.append(t2.Case("%s@%d" % (c.id, k), c.cfg, c.inits, c.ops, crash=k, meta={"parent": c.id, "twin": not aligned}))
     r = worldrun.run_stream("C02", "crash_points", variants, model_ok, level=1, oracle=oracle, do_shrink=False,
                             triggers=lambda case, a, b: trig.get(case.meta.get("parent"), []), nontrivial=lambda c, a: True,
                             desc="for every generated history (operations and the final Rollback): one run per crash point k (%s), stopping the process after exactly k primitive calls; the world at the crash is compared with the model's; oracle: every original entry is intact in the base or exactly copied at the mirrored backup path, and the backup region holds nothing but (possibly still growing) copies of originals" % ("a sample of %d per history" % per if per < 10 ** 6 else "every k"))
